@@ -30,6 +30,7 @@ type txCfg struct {
 	acOnPercent          int    // chance that a session starts with autocommit=1
 	kindWeights          [4]int // insert, replace, update, delete
 	pkPredPercent        int    // share of UPDATE/DELETE predicates of the form pk = k
+	branchChoices        []int  // when set, the number of branches is sampled from this list
 }
 
 type txCase struct {
@@ -47,6 +48,7 @@ type txCase struct {
 	mergeCommit    int
 	rejected       int
 	excluded       int
+	hotPKs         []int // rows of the current write target changed by other open transactions
 	headHash       map[string]string
 	headUnsure     map[string]bool
 }
@@ -113,6 +115,11 @@ func (c *txCase) genRow(sc *txSchema, pk int, label string) vsql.Row {
 
 func (c *txCase) genPred(sc *txSchema, label string) txPred {
 	if rapid.IntRange(0, 99).Draw(c.rt, label+".bypk") < c.cfg.pkPredPercent {
+		// half of the time go for a row another open transaction has changed (same row, some cell:
+		// a cell-wise merge or a conflict at commit)
+		if n := len(c.hotPKs); n > 0 && rapid.IntRange(0, 1).Draw(c.rt, label+".hotrow") == 0 {
+			return txPred{kind: "pk", lo: c.hotPKs[rapid.IntRange(0, n-1).Draw(c.rt, label+".hotpk")]}
+		}
 		return txPred{kind: "pk", lo: rapid.IntRange(1, c.cfg.pkMax).Draw(c.rt, label+".pk")}
 	}
 	switch k := rapid.IntRange(6, 9).Draw(c.rt, label+".pred"); {
@@ -435,7 +442,24 @@ func (c *txCase) doWrite(s *txSess) {
 	}
 	tgt := txTarget{b, sc.name}
 	c.m.begin(s)
+	c.hotPKs = nil
+	for _, o := range c.sess {
+		if o == s || !o.inTx {
+			continue
+		}
+		if t, ok := o.own[tgt]; ok {
+			for pk := 1; pk <= c.cfg.pkMax; pk++ {
+				k := strconv.Itoa(pk)
+				a, ha := t.Rows[k]
+				b2, hb := o.snap.W[tgt].Rows[k]
+				if ha != hb || (ha && !a.Equal(b2)) {
+					c.hotPKs = append(c.hotPKs, pk)
+				}
+			}
+		}
+	}
 	w := c.genWrite(tgt, "write", c.m.view(s, tgt, false))
+	c.hotPKs = nil
 	if w.kind == "insert" && s.ac && !s.explicit && txStaleTxOpen() && rapid.IntRange(0, 9).Draw(rt, "write.keepdup") > 0 {
 		// known finding: keep most failing statements out of autocommit sessions (each one costs
 		// an excluded step); the statement becomes a REPLACE when it would hit an existing key
@@ -801,6 +825,9 @@ func txRunCase(rt *rapid.T, srv *vsql.Server, admin *vsql.Session, cfg *txCfg, r
 
 	// schema and branches
 	nb := rapid.IntRange(cfg.branchMin, cfg.branchMax).Draw(rt, "branches")
+	if cfg.branchChoices != nil {
+		nb = rapid.SampledFrom(cfg.branchChoices).Draw(rt, "branches.weighted")
+	}
 	branches := []string{"main", "b1", "b2"}[:nb]
 	nt := rapid.IntRange(1, cfg.tablesMax).Draw(rt, "tables")
 	var schemas []*txSchema
